@@ -1,6 +1,7 @@
 package main
 
 import (
+	"go/token"
 	"fmt"
 	"go/types"
 	"sort"
@@ -592,8 +593,33 @@ func (vc *FnVC) doCall(ins ssa.Instruction, c *ssa.CallCommon, st *State) {
 		fc := vc.funcValueContract(c.Value)
 		fv := vc.term(c.Value)
 		vc.safety("nil-func("+describeValue(c.Value)+")", not(eq(fv.S, "0")))
-		if fc == nil {
-			// a function literal of this very function, called directly
+		vc.pendingVars = nil
+		if fc != nil {
+			// a contract on a function-typed field may speak about the struct that holds it
+			if ld, ok := c.Value.(*ssa.UnOp); ok {
+				if fa, ok := ld.X.(*ssa.FieldAddr); ok {
+					vc.pendingVars = map[string]Val{"holder": vc.val(fa.X)}
+				}
+			}
+		}
+		// a function literal of this very function, called directly or through the field it was
+		// stored in by the preceding statement: the literal's own (verified) contract applies,
+		// its captured variables bound to the cells captured at the literal
+		if mc := staticMakeClosure(c.Value, ins); mc != nil {
+			cf := mc.Fn.(*ssa.Function)
+			cfc := vc.prog.contractOf(cf)
+			if cfc != nil && (fc == nil || len(cfc.Requires)+len(cfc.Ensures) > 0) {
+				fc = cfc
+				vc.pendingVars = map[string]Val{}
+				for i, b := range mc.Bindings {
+					if i < len(cf.FreeVars) {
+						vc.pendingVars["&"+cf.FreeVars[i].Name()] = vc.val(b)
+					}
+				}
+			} else if cfc == nil && fc == nil {
+				fc = vc.defaultFrameContract(cf)
+			}
+		} else if fc == nil {
 			if cf := staticClosure(c.Value); cf != nil {
 				if cfc := vc.prog.contractOf(cf); cfc != nil && len(cfc.Requires) == 0 && len(cfc.Ensures) == 0 {
 					fc = cfc
@@ -692,6 +718,10 @@ func (vc *FnVC) applyContract(fc *FuncContract, sig *types.Signature, args []Val
 		}
 		env.vars[n] = args[i]
 	}
+	for k, v := range vc.pendingVars {
+		env.vars[k] = v
+	}
+	vc.pendingVars = nil
 	if len(args) > 0 && (sig.Recv() != nil || fc.Kind == "iface") {
 		tv := env.valTV(args[0])
 		env.self = &tv
@@ -712,6 +742,12 @@ func (vc *FnVC) applyContract(fc *FuncContract, sig *types.Signature, args []Val
 	}
 	pre := st.clone()
 	// havoc
+	if fc.ModifiesAll && fc.Kind == "func" && len(fc.Preserves) > 0 {
+		if vc.prog.framesUsed == nil {
+			vc.prog.framesUsed = map[string]*FuncContract{}
+		}
+		vc.prog.framesUsed[fc.Pkg+"::"+fc.Key] = fc
+	}
 	if fc.ModifiesAll {
 		keep := []string{"ghost"}
 		for _, cl := range fc.Preserves {
@@ -1396,6 +1432,55 @@ func (vc *FnVC) defaultFrameContract(fn *ssa.Function) *FuncContract {
 	vc.prog.synth[id] = fc
 	vc.prog.synthUsed[fn] = fc
 	return fc
+}
+
+// staticMakeClosure: the closure-creating instruction a called value denotes when that is
+// syntactically evident: the literal itself, or a load from a struct field that the same basic block
+// stored the literal into with nothing in between that could write the field (no call, no other
+// store through a pointer).
+func staticMakeClosure(v ssa.Value, at ssa.Instruction) *ssa.MakeClosure {
+	if mc, ok := v.(*ssa.MakeClosure); ok {
+		return mc
+	}
+	ld, ok := v.(*ssa.UnOp)
+	if !ok || ld.Op != token.MUL {
+		return nil
+	}
+	fa, ok := ld.X.(*ssa.FieldAddr)
+	if !ok || ld.Block() == nil {
+		return nil
+	}
+	instrs := ld.Block().Instrs
+	pos := -1
+	for i, in := range instrs {
+		if in == ssa.Instruction(ld) {
+			pos = i
+		}
+	}
+	for i := pos - 1; i >= 0; i-- {
+		switch x := instrs[i].(type) {
+		case *ssa.Store:
+			if fa2, ok := x.Addr.(*ssa.FieldAddr); ok && fa2.X == fa.X && fa2.Field == fa.Field {
+				mc, _ := x.Val.(*ssa.MakeClosure)
+				return mc
+			}
+			if _, isAlloc := x.Addr.(*ssa.Alloc); isAlloc {
+				continue
+			}
+			if fa2, ok := x.Addr.(*ssa.FieldAddr); ok && fa2.Field != fa.Field {
+				// a different field (of whatever struct): cannot overwrite this one unless the
+				// struct types differ in layout, which Go's typing rules out for the same field index
+				// only when the types agree; be conservative
+				if types.Identical(fa2.X.Type(), fa.X.Type()) {
+					continue
+				}
+			}
+			return nil
+		case *ssa.Call, *ssa.Defer, *ssa.Go, *ssa.MapUpdate, *ssa.Send:
+			return nil
+		}
+	}
+	return nil
 }
 
 // staticClosure: the function literal a called value denotes, when that is syntactically known
